@@ -7,7 +7,8 @@ PATCH=$(readlink -f "$1"); shift
 export GOFLAGS=-mod=mod GOPROXY=off GOSUMDB=off GOTOOLCHAIN=local
 WT=/tmp/wt/mut-$$
 git -C /repo worktree add -q --detach "$WT" HEAD || exit 2
-trap 'git -C /repo worktree remove --force "$WT" >/dev/null 2>&1; rm -rf /verif/.cache/tick-$(echo -n "$WT" | md5sum | cut -c1-8)' EXIT
+TAG=$(echo -n "$WT" | md5sum | cut -c1-8)
+trap 'git -C /repo worktree remove --force "$WT" >/dev/null 2>&1; rm -rf /verif/.cache/tick-$TAG /verif/.cache/race-$TAG /tmp/verif-scratch-$TAG' EXIT
 if ! git -C "$WT" apply "$PATCH" 2>/dev/null; then
   if ! git -C "$WT" apply -3 "$PATCH" 2>/dev/null; then
     if ! (cd "$WT" && patch -p1 --fuzz=3 -s < "$PATCH"); then echo "PATCH-DOES-NOT-APPLY $PATCH"; exit 3; fi
